@@ -228,6 +228,10 @@ func evalC11(c *engine.Case) engine.Verdict {
 			needs += k - 1
 		}
 	}
+	if msg := w.RetainedMismatch(); msg != "" {
+		v.Failf("%s", msg)
+		return v
+	}
 	if bursts > 0 {
 		v.Class("has-burst")
 	}
@@ -460,6 +464,10 @@ func evalC12(c *engine.Case) engine.Verdict {
 	wg.Wait()
 	evs := w.EventsSince(0)
 	if msg := engine.CheckBindings(w, evs); msg != "" {
+		v.Failf("concurrent world: %s", msg)
+		return v
+	}
+	if msg := w.RetainedMismatch(); msg != "" {
 		v.Failf("concurrent world: %s", msg)
 		return v
 	}
